@@ -58,6 +58,24 @@ Proof.
   exists w. split; [exact Hw|]. split; [exact E|]. destruct w as [k [r a]]. simpl in *. subst. reflexivity.
 Qed.
 
+(* the entry discriminator of every site depends on every parameter the action discriminator depends on *)
+Lemma disc_ok_true : disc_ok = true.
+Proof. vm_compute. reflexivity. Qed.
+Lemma disc_covers_true : disc_covers = true.
+Proof. vm_compute. reflexivity. Qed.
+
+Theorem entry_key_determines_action_key s :
+  In s sites ->
+  exists r, In r sites_disc /\ fst r = s_func s ++ [46%N] ++ s_var s /\
+            forall p, In p (fst (snd r)) -> mem_text p (snd (snd r)) = true.
+Proof.
+  intros Hs. pose proof disc_covers_true as C. unfold disc_covers in C. rewrite forallb_forall in C.
+  specialize (C s Hs). apply existsb_exists in C. destruct C as (r & Hr & E). apply text_eqb_eq in E.
+  pose proof disc_ok_true as T. unfold disc_ok in T. rewrite forallb_forall in T. specialize (T r Hr).
+  unfold disc_row_ok in T. rewrite forallb_forall in T.
+  exists r. split; [exact Hr|]. split; [exact E|]. exact T.
+Qed.
+
 (* ---------- association lists *)
 Lemma assoc_set_same {B} k (v : B) l : assoc k (assoc_set k v l) = Some v.
 Proof.
@@ -197,6 +215,65 @@ Theorem recorded_entry_is_latest executed s' c d :
 Proof.
   unfold commit_register. intros H. rewrite (register_all_lookup _ _ _ c d H), lookup_init.
   destruct (find_last _ _); reflexivity.
+Qed.
+
+(* no displacement: an executed action's entry whose key no OTHER executed entry shares is the one the introspector
+   returns after the commit.  With the discriminator table (entry_key_determines_action_key: the entry key fixes the
+   conflict key) this is why two statements that do not conflict both keep their entries. *)
+Lemma find_last_unique {A} (f : A -> bool) l x :
+  In x l -> f x = true -> (forall y, In y l -> f y = true -> y = x) -> find_last f l = Some x.
+Proof.
+  induction l as [|z r IH]; simpl; [intros []|].
+  intros Hin Fx U.
+  destruct (find_last f r) as [w|] eqn:E.
+  - apply find_last_some in E. destruct E as [Hw Fw]. rewrite (U w (or_intror Hw) Fw). reflexivity.
+  - destruct Hin as [->|Hin].
+    + rewrite Fx. reflexivity.
+    + pose proof (find_last_none _ _ E _ Hin) as C. congruence.
+Qed.
+
+Theorem entry_not_displaced executed s' i rs :
+  commit_register true init executed = Ok s' ->
+  In (i, rs) (concat executed) ->
+  (forall j rs', In (j, rs') (concat executed) -> icat j = icat i -> idisc j = idisc i -> (j, rs') = (i, rs)) ->
+  lookup s' (icat i) (idisc i) = Some i.
+Proof.
+  intros H Hin U. rewrite (recorded_entry_is_latest _ _ _ _ H).
+  rewrite (find_last_unique (keyb (icat i) (idisc i)) (concat executed) (i, rs)); [reflexivity|exact Hin| |].
+  - unfold keyb. simpl. rewrite !text_eqb_refl. reflexivity.
+  - intros [j rs'] Hj K. unfold keyb in K. simpl in K. apply andb_true_iff in K. destruct K as [K1 K2].
+    apply text_eqb_eq in K1, K2. apply U; auto.
+Qed.
+
+(* the same with the entry key an injective function of the conflict key: executed actions with pairwise distinct
+   conflict keys (what conflict resolution leaves) all keep their entries *)
+Theorem injective_keys_keep_entries (acts : list (text * (intr * list relop))) (f : text -> text) s' :
+  (forall a b, f a = f b -> a = b) ->
+  NoDup (map fst acts) ->
+  (forall a i rs, In (a, (i, rs)) acts -> idisc i = f a) ->
+  commit_register true init (map (fun x => [snd x]) acts) = Ok s' ->
+  forall a i rs, In (a, (i, rs)) acts -> lookup s' (icat i) (idisc i) = Some i.
+Proof.
+  intros Inj ND K H a i rs Hin.
+  assert (C : concat (map (fun x : text * (intr * list relop) => [snd x]) acts) = map snd acts).
+  { clear. induction acts as [|x r IH]; simpl; [reflexivity|]. rewrite IH. reflexivity. }
+  apply (entry_not_displaced _ _ i rs H).
+  - rewrite C. apply in_map_iff. exists (a, (i, rs)). auto.
+  - intros j rs' Hj _ Hd. rewrite C in Hj. apply in_map_iff in Hj. destruct Hj as ([b [j' rs'']] & E & Hb).
+    simpl in E. inversion E; subst j' rs''. clear E.
+    assert (b = a).
+    { apply Inj. rewrite <- (K _ _ _ Hb), <- (K _ _ _ Hin). exact Hd. }
+    subst b.
+    assert (G : forall (l : list (text * (intr * list relop))) k v1 v2, NoDup (map fst l) -> In (k, v1) l -> In (k, v2) l -> v1 = v2).
+    { clear. induction l as [|[k0 v0] r IH]; simpl; [intros ? ? ? _ []|].
+      intros k v1 v2 ND [E1|H1] [E2|H2].
+      - congruence.
+      - inversion E1; subst. apply NoDup_cons_iff in ND. destruct ND as [N1 N2].
+        exfalso. apply N1. apply in_map_iff. exists (k, v2). auto.
+      - inversion E2; subst. apply NoDup_cons_iff in ND. destruct ND as [N1 N2].
+        exfalso. apply N1. apply in_map_iff. exists (k, v1). auto.
+      - apply NoDup_cons_iff in ND. destruct ND as [N1 N2]. eapply IH; eauto. }
+    exact (G _ _ _ _ ND Hb Hin).
 Qed.
 
 (* with introspection disabled nothing is recorded *)
